@@ -19,6 +19,8 @@ func swErr(msg string) string {
 	switch {
 	case msg == "":
 		return "None"
+	case strings.HasPrefix(msg, "BATCH FAILED"), strings.HasPrefix(msg, "TASKS FAILED"):
+		return "Some EPanic" // not a rejection of this step: the whole batch / task list failed
 	case strings.Contains(m, "insufficient"):
 		return "Some EInsufficient"
 	case strings.Contains(m, "swap already exists"):
